@@ -292,6 +292,11 @@ def p_dict(interp, x=None):
 
 
 def map_from_zip(interp, ks: V.SymSeq, vs: V.SymSeq):
+    if isinstance(vs.length, int) and vs.length == 0 or isinstance(ks.length, int) and ks.length == 0:
+        return {}
+    if isinstance(vs.length, int):
+        # zip stops at the shorter sequence
+        interp.cx.oblige("prim.dict_zip.same_length", lift(ks.length) == vs.length, kind="prim")
     idx = seq_index_fn(interp, ks)
     return V.SymMap(ks, lambda t: vs.get(idx(t)))
 
